@@ -232,6 +232,22 @@ def ev_spell(case, rec):
                     rec.outcome('spelling-bad')
                 else:
                     rec.outcome('spelling-ok')
+        # request headers as real clients send them (curl, python-requests, wget: Accept: */*; browsers; fetch): the answer is the same
+        # JSON document with status 200 whatever the client says it accepts
+        for hd in ({'Accept': '*/*'}, {'Accept': 'application/json'}, {'Accept': 'text/html,application/xhtml+xml,application/xml;q=0.9,*/*;q=0.8'},
+                   {'Accept': 'application/json, text/plain, */*', 'X-Requested-With': 'XMLHttpRequest'}, {'Accept': 'text/html'},
+                   {'User-Agent': 'curl/8.5.0', 'Accept': '*/*', 'Accept-Encoding': 'gzip, deflate, br', 'Accept-Language': 'de-DE,de;q=0.9'},
+                   {'Accept-Charset': 'iso-8859-1', 'Connection': 'close'}, {'Content-Type': 'text/plain'}, {'Cookie': 'from_angle_type=dms; to_angle_type=dms'}):
+            url = '/%s?%s%s' % (route, '&'.join('%s=%s' % kv for kv in zip(keys, vals)), extra)
+            st, resp = rec.call(c.get, url, headers=hd)
+            rec.nontriv((route, ft, tt, 'headers', tuple(sorted(hd.items()))))
+            if st != 'ok' or resp.status_code != 200 or resp.data != base.data or 'json' not in (resp.content_type or ''):
+                rec.fail('the same query sent with request headers %r is not answered with the same JSON document' % (hd,), site='api:%s:request-headers' % route,
+                         observed=resp if st != 'ok' else [resp.status_code, resp.content_type, resp.data[:160].decode('latin1')],
+                         expected=[200, 'application/json', base.data[:160].decode('latin1')], case=dict(case, url=url, headers=hd), coords={'from': ft, 'to': tt})
+                rec.outcome('headers-bad')
+            else:
+                rec.outcome('headers-ok')
         # the parameters of a query string carry names: their ORDER is free (every permutation of the numeric parameters, with the
         # angle-type switches in front, behind and in between)
         sw = [s for s in extra.split('&') if s]
